@@ -6,11 +6,42 @@ MANIFEST = dict(
     text="Theorems in coq/Properties/C01*.v are machine-checked for all states/actions/histories of the lock-engine model: every new holder is admitted only under the doLock rule on the recorded counters (locked <= Count of request and of oldest holder, explicit 0xffff branch), and the locked counter equals the sum of outstanding depths in every reachable state of the core subset. The model is tied to server/db.go + server/lock.go on every run by executing the same seeded histories on the real LockDB (in-package harness, manual clock) and on the extracted model and diffing replies, AOF records and full snapshots (holders, waiters, depths, reference counts, counters). A monitor (executable statement of the bound on implementation replies/snapshots) searches a concrete failing history when a proof or the correspondence breaks.",
     note="Trusted: Coq kernel; hand-written model validated by the correspondence check; extraction (ExtrOcamlBasic only); harness + hooks; sequential schedules at request/sweep granularity, one shard (see evidence trusted_base). Lock-free key table (CAS protocol) and PriorityMutex are modelled as atomic, not verified.",
 )
-PROFILES = [("core", 0.25), ("count", 0.3), ("waiters", 0.2), ("reentrant", 0.1), ("expiry", 0.1), ("many", 0.02)]
+PROFILES = [("core", 0.2), ("count", 0.25), ("waiters", 0.15), ("reentrant", 0.1), ("expiry", 0.08), ("sched", 0.12), ("sched2", 0.1), ("many", 0.02)]
 MONITORS = ["C01", "PANIC"]
+
+
+def boundary(ctx, run):
+    """65 535+ holds on one key (Count 0xffff) and probes around the explicit unlimited branch of doLock: run on the
+    implementation only (the extracted model is quadratic at this size); the bound is checked on the replies."""
+    import glob, os
+    from tools import engine_corr as ec
+    out = []
+    for f in sorted(glob.glob(os.path.join(_engine.vlib.VERIF, "corpus", "C01", "*.implcase"))):
+        txt, err, rc = ec.run_bin(run.impl, f, timeout=300)
+        before = 0
+        req = {}
+        lines = [l.rstrip("\n") for l in open(f)]
+        for l in lines:
+            if l.startswith("req "):
+                x = l.split(); req[int(x[3])] = int(x[11])
+        for ln in txt.splitlines():
+            if ln.startswith("ev panic"):
+                out.append(("panic:" + ln.split()[2].split("/")[-1], "server code panicked in the boundary scenario: " + ln, {"impl_case": lines}))
+            if ln.startswith("ev reply"):
+                x = ln.split()
+                rid, res, lrc = int(x[3]), int(x[4]), int(x[6])
+                if res == 0 and lrc == 1 and rid in req and before > 0:
+                    c = req[rid]
+                    if before > c:
+                        sig = "count-bound:unlimited-readers-beyond-65535" if (c == 0xffff and before >= 0xffff) else "count-bound:new-holder-over-count:boundary"
+                        out.append((sig, "request %d (Count %d) granted as new holder with %d holds outstanding" % (rid, c, before), {"impl_case": lines, "observed": ln}))
+            if ln.startswith("snap "):
+                before = int([t for t in ln.split() if t.startswith("LD=")][0][3:])
+    return out
 
 
 def run(ctx):
     if getattr(ctx, "replay", None):
         return _engine.replay(ctx, "C01", MONITORS)
-    return _engine.run_engine_check(ctx, "C01", PROFILES, MONITORS, n_quick=500, n_thorough=20000)
+    return _engine.run_engine_check(ctx, "C01", PROFILES, MONITORS, n_quick=500, n_thorough=20000,
+                                    extra_targets=["Codec/DecisionBridge.vo"], impl_only=boundary)
